@@ -2136,6 +2136,18 @@ def run_r4(repo: Repo, res: Result) -> None:
                     why = _own_key_and_whole_sets_only(fn, co, a, bnames, params, key_params)
                     if why:
                         bad.append(f"the search also receives `{show(a, 60)}`{why}")
+                # a collection that all keys share must come back from the search as it went in
+                sf = fn.callee(call)
+                if sf is not None and not isinstance(sf.node, ast.Lambda):
+                    sp = [x.arg for x in [*sf.node.args.posonlyargs, *sf.node.args.args]]
+                    given = dict(zip(sp, call.args))
+                    given.update({k.arg: k.value for k in call.keywords if k.arg})
+                    for pn, a in given.items():
+                        if isinstance(a, ast.Name) and a.id in bnames or isinstance(a, ast.Constant) or (isinstance(a, ast.Attribute) and _is_graph(fn, a)):
+                            continue
+                        hit = _mutates_param(sf, pn)
+                        if hit is not None:
+                            bad.append(f"the search {sf.qualname} changes the collection `{pn}` it is given (`{header(stmt_of(hit))[:60]}`), and `{show(a, 50)}` is shared by all keys of the batch: the result for a key depends on which keys were searched before")
         n += 1
         if unsure4 and not bad:
             res.undecide("C11.R4", base_key + " [independent searches]", unsure4[0], where(view, key_node))
@@ -2165,6 +2177,23 @@ def run_r4(repo: Repo, res: Result) -> None:
         n += 1
         res.add("C11.R4", base_key + " [result per key]", not bad, "the result is stored under the key of the iteration, unconditionally" if not bad else bad[0] + ": the result of a search is not stored under its own key for every key", where(view, key_node), kind="structural")
     res.floor("C11.R4", 12, n)
+
+
+def _mutates_param(f: FuncInfo, pn: str) -> ast.AST | None:
+    """The node in `f` that changes the object the parameter `pn` refers to in place (before `pn` is re-bound), else None."""
+    rebound = [n for n in own_nodes(f.node) if isinstance(n, ast.Name) and n.id == pn and isinstance(n.ctx, ast.Store) and not isinstance(parent(n), ast.AugAssign)]
+    first_rebind = min((getattr(n, "lineno", 10**9) for n in rebound), default=10**9)
+    for x in own_nodes(f.node):
+        tgt = None
+        if isinstance(x, ast.Call) and isinstance(x.func, ast.Attribute) and x.func.attr in ("append", "extend", "add", "update", "remove", "pop", "clear", "discard", "insert", "setdefault", "popitem", "difference_update", "intersection_update", "symmetric_difference_update", "sort", "reverse"):
+            tgt = x.func.value
+        elif isinstance(x, ast.Subscript) and isinstance(x.ctx, (ast.Store, ast.Del)):
+            tgt = x.value
+        elif isinstance(x, ast.AugAssign) and isinstance(x.target, ast.Name) and isinstance(x.op, (ast.BitOr, ast.BitAnd, ast.Sub, ast.Add, ast.BitXor)):
+            tgt = x.target  # s |= t / s -= t change a set / list in place
+        if isinstance(tgt, ast.Name) and tgt.id == pn and getattr(x, "lineno", 0) < first_rebind:
+            return x
+    return None
 
 
 def _helper_search(fn: Fn, co: Collections, call: ast.AST, bnames: set[str], params: list[str], key_params: list[str]) -> tuple[str, str]:
